@@ -150,7 +150,7 @@ func runC12(pl *plan.Plan, out *plan.Outcome) {
 			}
 		}
 	})
-	sent := make([]int, len(clients))     // records fully written per client
+	sent := make([]int, len(clients))      // records fully written per client
 	finished := make([]bool, len(clients)) // client closed orderly after sending everything
 	stay := make(chan struct{})
 	clientDone := make(chan int, len(clients))
